@@ -18,12 +18,29 @@ atree   := ["n", name, sender, recipient, ro, [[id, iter, rep]…], [atree…]]
   {"op":"delete","tree":atree,"id":s,"iter":k,"nr":k} → {"tree": atree}
   {"op":"split_end"|"prefix","tree":atree,"path":[…]} → {"tree": atree}
   {"op":"collapse","tree":tree} → {"trees":[tree…]}
+  {"op":"prime","grammar":G(IR json of Driver/IRJson),"init":null|[[d|null…]…]}
+        → {"status":"done"|"raised"|"fuel","dist":[[d|null…]…],"bound":n}
+        (`Grammar.prime()` of Model/Prime.lean from the constructor state (`init` null) or from the given state;
+         one list per rule, nodes in pre-order, null = inf; iteration bound `primeBound |worklist|`)
+  {"op":"primed","grammar":G} → {"primed":bool}   (`primedB`: the annotations are what prime() computes)
+  {"op":"expand_bound", …as "expand" without "fuel"…} → {"status":"ok"|"stuck"|"fuel","tree":tree|null,"rest":n,"fuel":n}
+        (`fuzzStartF` with the recursion bound `G.fuelFor tape` of C01_expand_terminates_partial)
+  {"op":"crossover","p1":atree,"p2":atree,"sym":s,"k1":n,"k2":n,"fuel":n}
+        → {"status":"nothing"|"stuck"|"ok","c1":atree|null,"c2":atree|null}          (Model/Evo.lean `crossover`)
+  {"op":"mutate","grammar":G,"tree":atree,"failing":[path…],"max_nodes":n,"i":n,"j":n,"tape":[…],"fuel":n}
+        → {"status":"same"|"stuck"|"ok","tree":tree|null,"rest":n,"point":path|null,"fuzz_args":[start,[path…],budget]|null}
+  {"op":"fix","grammar":G,"tree":atree,"sugg":sugg|null,"tape":[…],"fuel":n}
+        → {"status":"ok"|"stuck","tree":tree|null,"fixes":n,"rest":n,"paths":[path…]}
+        sugg := ["nop"] | ["given",[[path,atree]…]] | ["all",[sugg…]] | ["first",[sugg…]]
+              | ["rep",ending,startVal,endVal,boundLen,goalLen,iter,id,allowFull,fnode]
   {"op":"valid","grammar":G(IR json of Driver/IRJson),"oracle":O,"tree":tree} → {"valid":bool,"bad":path|null}
         (the normalising checker `validFast`, proved ↔ `Valid` in Proofs/IRFast.lean)
 -/
 import Driver.IRJson
 import Model.Fuzz
 import Model.IRFast
+import Model.FuzzT
+import Model.Evo
 open Lean FV FV.Drv
 
 namespace FV.Drv
@@ -118,6 +135,49 @@ partial def jATree : ATree → Json
     | other => other
   | .mk .slice _ _ _ _ ks => Json.arr #["s", Json.arr (ks.map jATree).toArray]
 
+partial def suggOf (j : Json) : Except String Sugg := do
+  let a ← j.getArr?
+  let tag ← (a[0]?.getD Json.null).getStr?
+  let el (i : Nat) : Json := a[i]?.getD Json.null
+  match tag with
+  | "nop" => return .nop
+  | "given" =>
+    let repl ← (← (el 1).getArr?).toList.mapM (fun e => do
+      let x ← e.getArr?
+      pure ((← natArr (x[0]?.getD Json.null)), (← atreeOf (x[1]?.getD Json.null))))
+    return .given repl
+  | "all" => return .all (← (← (el 1).getArr?).toList.mapM suggOf)
+  | "first" => return .first (← (← (el 1).getArr?).toList.mapM suggOf)
+  | "rep" =>
+    return .rep (← natArr (el 1)) (← natArr (el 2)) (← natArr (el 3)) (← (el 4).getNat?) (← (el 5).getNat?)
+      (← (el 6).getNat?) (← (el 7).getStr?) (← boolOf (el 8)) (← fnodeOf (el 9))
+  | _ => throw s!"bad suggestion tag {tag}"
+
+mutual
+/-- all positions of a rule in pre-order (terminals included) -/
+def prePos : Node → List Nat → List (List Nat)
+  | .term _, p => [p]
+  | .nt _ _ _, p => [p]
+  | .alt _ ns, p => p :: prePosL ns p 0
+  | .cat _ ns, p => p :: prePosL ns p 0
+  | .rep _ _ n _ _, p => p :: prePos n (p ++ [0])
+def prePosL : List Node → List Nat → Nat → List (List Nat)
+  | [], _, _ => []
+  | n :: ns, p, i => prePos n (p ++ [i]) ++ prePosL ns p (i + 1)
+end
+
+def allPos (G : Grammar) : List (List Pos) :=
+  (G.rules.zipIdx).map (fun rk => (prePos rk.1.2 []).map (fun p => (rk.2, p)))
+
+def jDist : Dist → Json
+  | none => Json.null
+  | some d => Json.num (JsonNumber.fromNat d)
+
+def distOf (j : Json) : Except String Dist :=
+  match j with
+  | Json.null => pure none
+  | m => do pure (some (← m.getNat?))
+
 end FV.Drv
 
 def handle (j : Json) : Except String Json := do
@@ -185,6 +245,101 @@ def handle (j : Json) : Except String Json := do
       | none => Json.null
       | some p => jNats p
     return Json.mkObj [("valid", Json.bool (validFast G R t)), ("bad", bad)]
+  | "prime" =>
+    let G ← grammarOf (← j.getObjVal? "grammar")
+    let pos := allPos G
+    let s0 : Pos → Dist ← match (← j.getObjVal? "init") with
+      | Json.null => pure (initAt G)
+      | ij => do
+        let rows ← (← ij.getArr?).toList.mapM (fun r => do (← r.getArr?).toList.mapM distOf)
+        if rows.length != pos.length || (rows.zip pos).any (fun rp => rp.1.length != rp.2.length) then
+          throw "prime: init does not have the shape of the grammar"
+        let tbl : List (Pos × Dist) := (pos.zip rows).flatMap (fun pr => pr.1.zip pr.2)
+        pure (fun p => match tbl.find? (fun e => e.1 == p) with
+          | some e => e.2
+          | none => some 1)
+    let wl := worklist G
+    let bound := primeBound wl.length
+    let out := fun (st : String) (s : Pos → Dist) =>
+      Json.mkObj [("status", Json.str st),
+        ("dist", Json.arr (pos.map (fun row => Json.arr (row.map (fun p => jDist (s p))).toArray)).toArray),
+        ("bound", Json.num (JsonNumber.fromNat bound))]
+    match primeLoop (kindAt G) bound s0 wl with
+    | .done s => return out "done" s
+    | .raised => return out "raised" s0
+    | .fuel => return out "fuel" s0
+  | "primed" =>
+    let G ← fgrammarOf (← j.getObjVal? "grammar")
+    return Json.mkObj [("primed", Json.bool (primedB G))]
+  | "expand_bound" =>
+    let G ← fgrammarOf (← j.getObjVal? "grammar")
+    let start ← j.getObjValAs? String "start"
+    let path ← strList (← j.getObjVal? "path")
+    let b ← intOf (← j.getObjVal? "budget")
+    let tape ← (← (← j.getObjVal? "tape").getArr?).toList.mapM choiceOf
+    let fuel := G.fuelFor tape
+    let jf := Json.num (JsonNumber.fromNat fuel)
+    match fuzzStartF G fuel start path b tape with
+    | .ok (t, rest) => return Json.mkObj [("status", "ok"), ("tree", jTree t),
+        ("rest", Json.num (JsonNumber.fromNat rest.length)), ("fuel", jf)]
+    | .stuck => return Json.mkObj [("status", "stuck"), ("tree", Json.null), ("rest", Json.num 0), ("fuel", jf)]
+    | .fuel => return Json.mkObj [("status", "fuel"), ("tree", Json.null), ("rest", Json.num 0), ("fuel", jf)]
+  | "crossover" =>
+    let p1 ← atreeOf (← j.getObjVal? "p1")
+    let p2 ← atreeOf (← j.getObjVal? "p2")
+    let sym ← j.getObjValAs? String "sym"
+    let k1 ← (← j.getObjVal? "k1").getNat?
+    let k2 ← (← j.getObjVal? "k2").getNat?
+    let fuel ← (← j.getObjVal? "fuel").getNat?
+    match crossover fuel p1 p2 sym k1 k2 with
+    | .nothing => return Json.mkObj [("status", "nothing"), ("c1", Json.null), ("c2", Json.null)]
+    | .stuck => return Json.mkObj [("status", "stuck"), ("c1", Json.null), ("c2", Json.null)]
+    | .ok c1 c2 => return Json.mkObj [("status", "ok"), ("c1", jATree c1), ("c2", jATree c2)]
+  | "mutate" =>
+    let G ← fgrammarOf (← j.getObjVal? "grammar")
+    let ind ← atreeOf (← j.getObjVal? "tree")
+    let failing ← (← (← j.getObjVal? "failing").getArr?).toList.mapM natArr
+    let maxNodes ← intOf (← j.getObjVal? "max_nodes")
+    let i ← (← j.getObjVal? "i").getNat?
+    let jj ← (← j.getObjVal? "j").getNat?
+    let tape ← (← (← j.getObjVal? "tape").getArr?).toList.mapM choiceOf
+    let fuel ← (← j.getObjVal? "fuel").getNat?
+    let point := mutPoint ind failing i jj
+    let args := match point with
+      | some q => match ind.subAt q with
+        | some node =>
+          let a := mutFuzzArgs ind q node maxNodes
+          Json.arr #[Json.str a.1, Json.arr (a.2.1.map Json.str).toArray, Json.num (JsonNumber.fromInt a.2.2)]
+        | none => Json.null
+      | none => Json.null
+    let jp := match point with
+      | some q => jNats q
+      | none => Json.null
+    match mutate G fuel fuel ind failing maxNodes i jj tape with
+    | .same => return Json.mkObj [("status", "same"), ("tree", Json.null), ("rest", Json.num 0), ("point", Json.null),
+        ("fuzz_args", Json.null)]
+    | .stuck => return Json.mkObj [("status", "stuck"), ("tree", Json.null), ("rest", Json.num 0), ("point", jp),
+        ("fuzz_args", args)]
+    | .ok m rest => return Json.mkObj [("status", "ok"), ("tree", jTree m.erase),
+        ("rest", Json.num (JsonNumber.fromNat rest.length)), ("point", jp), ("fuzz_args", args)]
+  | "fix" =>
+    let G ← fgrammarOf (← j.getObjVal? "grammar")
+    let ind ← atreeOf (← j.getObjVal? "tree")
+    let sugg ← match (← j.getObjVal? "sugg") with
+      | Json.null => pure none
+      | sj => do pure (some (← suggOf sj))
+    let tape ← (← (← j.getObjVal? "tape").getArr?).toList.mapM choiceOf
+    let fuel ← (← j.getObjVal? "fuel").getNat?
+    let paths := match sugg with
+      | some s => match getRepl G fuel ind s tape with
+        | some (repl, _) => Json.arr (repl.map (fun e => jNats e.1)).toArray
+        | none => Json.null
+      | none => Json.arr #[]
+    match fixIndividual G fuel ind sugg tape with
+    | some ((ind', n), rest) => return Json.mkObj [("status", "ok"), ("tree", jTree ind'.erase),
+        ("fixes", Json.num (JsonNumber.fromNat n)), ("rest", Json.num (JsonNumber.fromNat rest.length)), ("paths", paths)]
+    | none => return Json.mkObj [("status", "stuck"), ("tree", Json.null), ("fixes", Json.num 0), ("rest", Json.num 0),
+        ("paths", paths)]
   | "collapse" =>
     let t ← treeOf (← j.getObjVal? "tree")
     return Json.mkObj [("trees", Json.arr ((collapse t).map jTree).toArray)]
